@@ -169,6 +169,12 @@ theorem deadline_never_passed (progs : List (List Op)) (ties : List Nat) (fuel :
 example : kNew.timers = [{ id := 0, date := 0 + 0, cb := .wto 0 0 }] ∧ (kNew.actor 0).wannadie = false := by
   simp [kNew, kReg0, K.handle, K.register, K.setImpl, K.setActor, K.actor, K.impl, upd, K.timerSet]
 
+/-- a state satisfying the registration invariant with a pending `wait_for` timer of a non-dying actor; popping and
+firing it keeps the invariant (`fire_reg`) -/
+example : RegInv kNew ∧ kNew.timers[0]? = some { id := 0, date := 0 + 0, cb := .wto 0 0 } ∧
+    (kNew.actor 0).wannadie = false ∧ RegInv kNewFired :=
+  ⟨kNew_reg, kNew_shape.2.2.2, kNew_shape.2.2.1, fire_reg kNew 0 _ kNew_reg kNew_shape.2.2.2⟩
+
 example : (kNewFired.actor 0).waiting = [] ∧ ¬ RegInv kOldFired :=
   ⟨kNewFired_clean.1, wait_for_double_registration_regression⟩
 
